@@ -20,7 +20,9 @@ def split_columns(row, col):
     pos = 0
     ok = True
     for c in row.cells:
-        if pos < col:
+        if pos < col or (c.w == 0 and pos == col and not right and left and left[-1].ch[:1] != ' '
+                         and TAG.get(left[-1].bg) == TAG.get(c.bg) and TAG.get(left[-1].bg) != 'hint_bg'):
+            # (a zero-width character right at the boundary completes the last character of the left panel)
             left.append(c)
             if pos + c.w > col:
                 ok = False
